@@ -207,11 +207,11 @@ var vC05RepNames = [3]string{"eager", "imported", "imported-scanned"}
 // vC05Check: the assertions of H05.4 on one text. wantBits = StringToNumber(text) per ECMA-262,
 // wantTrim = the text without leading/trailing StrWhiteSpaceChar, knownNum/knownID = the class of inputs of
 // a registered finding about the value itself.
-func vC05Check(t *vC05Text, wantBits uint64, wantTrim string, knownNum bool, knownID string) {
+func vC05Check(t *vC05Text, wantBits uint64, wantTrim string, knownNum bool, knownID string, trimReps int) {
 	vals := t.values()
 	var num [3]uint64
 	// (a definitely failing assertion ends the path: independent checks first)
-	for k := range vals {
+	for k := 0; k < trimReps; k++ {
 		s := t.values()[k]
 		vAssert("toTrimmedUTF8==text without leading/trailing StrWhiteSpaceChar", s.toTrimmedUTF8() == wantTrim)
 	}
@@ -246,15 +246,16 @@ func vC05Check(t *vC05Text, wantBits uint64, wantTrim string, knownNum bool, kno
 }
 
 // (prefix, suffix) shapes of H05.4.strnum.digits: symbolic members of each white-space class
+// (ASCII only: strings.Trim with the Unicode cutset and utf16.Decode on symbolic text cost ~100 solver-decided
+// branches per path; the UTF-16 backed representations are enumerated concretely by H05.4.strnum.fixed)
 var vC05DigitShapes = [][2]int{
-	{vC05WsNone, vC05WsNone}, {vC05WsAscii, vC05WsAscii}, {vC05WsNBSP, vC05WsNone}, {vC05WsNone, vC05Ws3},
-	{vC05Ws3, vC05WsAscii}, {vC05WsAscii, vC05WsNBSP},
+	{vC05WsNone, vC05WsNone}, {vC05WsAscii, vC05WsNone}, {vC05WsAscii, vC05WsAscii}, {vC05WsNone, vC05WsAscii},
 }
 
 // H05.4.digits: ws? sign? digit{1,3} ws?
 func H_C05_strnumDigits() {
 	t := &vC05Text{ascii: true}
-	sh := vC05DigitShapes[vChoice("shape", len(vC05DigitShapes))] // no NEL here (H05.4.strnum.fixed)
+	sh := vC05DigitShapes[vChoice("shape", vBound("SH"))] // no NEL here (H05.4.strnum.fixed)
 	pre, suf := sh[0], sh[1]
 	signed := vChoice("signed", 2) == 1
 	nd := 1 + vChoice("digits", vBound("D"))
@@ -283,7 +284,7 @@ func H_C05_strnumDigits() {
 	}
 	// known: "-00", "-000": stringToInt only intercepts the exact spelling "-0"
 	negZero := neg && v == 0 && nd >= 2
-	vC05Check(t, math.Float64bits(want), string(t.utf8[bodyStart:bodyEnd]), negZero, "F-C05-negative-zero-multi-digit")
+	vC05Check(t, math.Float64bits(want), string(t.utf8[bodyStart:bodyEnd]), negZero, "F-C05-negative-zero-multi-digit", 1)
 }
 
 type vC05Fixed struct {
@@ -303,10 +304,15 @@ var vC05FixedSpellings = []vC05Fixed{
 	{"+Infinity", 0x7FF0000000000000, ""},
 	{"-Infinity", 0xFFF0000000000000, ""},
 	{"1", 0x3FF0000000000000, ""},
-	{"0x1f", 0x403F000000000000, ""},           // 31
-	{"0b11", 0x4008000000000000, ""},           // 3
-	{"0o17", 0x402E000000000000, ""},           // 15
-	{"-0x1", vC05NaNBits, ""},                  // NonDecimalIntegerLiteral takes no sign
+	{"12", 0x4028000000000000, ""},
+	{"+7", 0x401C000000000000, ""},
+	{"-42", 0xC045000000000000, ""},
+	{"007", 0x401C000000000000, ""},
+	{"999", 0x408F380000000000, ""},
+	{"0x1f", 0x403F000000000000, ""}, // 31
+	{"0b11", 0x4008000000000000, ""}, // 3
+	{"0o17", 0x402E000000000000, ""}, // 15
+	{"-0x1", vC05NaNBits, ""},        // NonDecimalIntegerLiteral takes no sign
 	{"0x-1", vC05NaNBits, "F-C05-radix-prefix-then-sign"},
 	{"0b+1", vC05NaNBits, "F-C05-radix-prefix-then-sign"},
 	{"0x", vC05NaNBits, ""},
@@ -315,7 +321,7 @@ var vC05FixedSpellings = []vC05Fixed{
 	{"+-1", vC05NaNBits, ""},
 	{"1.5", 0x3FF8000000000000, ""},
 	{"1e3", 0x408F400000000000, ""},
-	{"1e30", 0x46293E5939A08CEA, ""},                // ToInteger overflow class
+	{"1e30", 0x46293E5939A08CEA, ""}, // ToInteger overflow class
 	{"-1e30", 0xC6293E5939A08CEA, ""},
 	{"9223372036854775808", 0x43E0000000000000, ""}, // 2^63
 }
@@ -359,5 +365,5 @@ func H_C05_strnumFixed() {
 		want = vC05NaNBits
 		known, id = true, "F-C05-NEL-trimmed-as-white-space"
 	}
-	vC05Check(t, want, string(t.utf8[trimStart:trimEnd]), known, id)
+	vC05Check(t, want, string(t.utf8[trimStart:trimEnd]), known, id, 3)
 }
